@@ -1,6 +1,7 @@
 """C07 — quorum thresholds satisfy the n >= 5f+1 intersection arithmetic: code = formulas, on the checked domain."""
 from engine import query as Q
 from engine.terms import show, subterms
+from . import common
 from engine.guards import Atom, Walker, field_path, chain, Inliner
 
 MOD = "zksync_consensus_roles::validator::messages::schedule"
@@ -44,6 +45,28 @@ def is_param(t):
     return t[0] == "param"
 
 
+def expand(ctx, t, depth=0):
+    """Inline calls of the threshold functions / getters of this module (they are total and pure) and strip the
+    overflow-check plumbing, so that a formula written through helpers and one written out compare equal."""
+    inl = Inliner(ctx)
+    t = norm_arith(t)
+    if not isinstance(t, tuple) or depth > 6:
+        return t
+    if t and t[0] == "call" and isinstance(t[1], str) and t[1].startswith(MOD + "::") and len(t[2]) <= 2:
+        body = inl.inline_fn(t[1], [expand(ctx, a, depth + 1) for a in t[2]])
+        if body is not None:
+            return expand(ctx, body, depth + 1)
+    out = tuple(expand(ctx, x, depth + 1) if isinstance(x, tuple) else x for x in t)
+    if out and out[0] == "bin" and out[1] == "Mul" and len(out) == 4 and out[3][0] == "const" and out[2][0] != "const":
+        out = ("bin", "Mul", out[3], out[2])          # constant factor first
+    return _fold_identity(out)
+
+
+def spec_forms(n):
+    f = ("bin", "Div", ("bin", "Sub", n, ("const", 1)), ("const", 5))
+    return {"max_faulty_weight": f, "quorum_threshold": ("bin", "Sub", n, f), "subquorum_threshold": ("bin", "Sub", n, ("bin", "Mul", ("const", 3), f))}
+
+
 def rule_formulas(ctx):
     R = "C07.1"
     ctx.rule(R, "formula identity: max_faulty_weight(n) = (n-1)/5, quorum_threshold(n) = n - f(n), subquorum_threshold(n) = n - 3*f(n); the Schedule methods pass self.total_weight")
@@ -55,6 +78,8 @@ def rule_formulas(ctx):
     q = ctx.fn(MOD + "::quorum_threshold")
     t = norm_arith(inl.ret_term(q))
     ok = t is not None and t[0] == "bin" and t[1] == "Sub" and is_param(t[2]) and t[3] == ("call", MOD + "::max_faulty_weight", (t[2],))
+    if not ok and t is not None:
+        ok = any(expand(ctx, t) == spec_forms(pp)["quorum_threshold"] for pp in subterms(t) if pp[0] == "param")
     ctx.ob(R, "quorum_threshold", ok, "returns n - max_faulty_weight(n)" if ok else "quorum_threshold returns %s, expected n - f(n)" % (show(t) if t else None), q.loc())
     s = ctx.fn(MOD + "::subquorum_threshold")
     t = norm_arith(inl.ret_term(s))
@@ -62,6 +87,8 @@ def rule_formulas(ctx):
     if t is not None and t[0] == "bin" and t[1] == "Sub" and is_param(t[2]) and t[3][0] == "bin" and t[3][1] == "Mul":
         fa = ("call", MOD + "::max_faulty_weight", (t[2],))
         ok = {t[3][2], t[3][3]} == {("const", 3), fa}
+    if not ok and t is not None:
+        ok = any(expand(ctx, t) == spec_forms(pp)["subquorum_threshold"] for pp in subterms(t) if pp[0] == "param")
     ctx.ob(R, "subquorum_threshold", ok, "returns n - 3 * max_faulty_weight(n)" if ok else "subquorum_threshold returns %s, expected n - 3*f(n)" % (show(t) if t else None), s.loc())
     for m in ("max_faulty_weight", "quorum_threshold", "subquorum_threshold"):
         g = ctx.fn(SCHED + "::" + m)
@@ -73,6 +100,11 @@ def rule_formulas(ctx):
                 a = inl.inline_fn(a[1], list(a[2])) or a
             base, path = field_path(a)
             ok = path == ["total_weight"]
+        if not ok and t is not None:
+            # written out instead of delegating: compare the fully expanded formula over self.total_weight
+            e = expand(ctx, t)
+            tws = [x for x in subterms(e) if x[0] == "field" and x[2] == "total_weight"]
+            ok = bool(tws) and e == spec_forms(tws[0])[m]
         ctx.ob(R, "Schedule::%s" % m, ok, "Schedule::%s() = %s(self.total_weight)" % (m, m) if ok else "Schedule::%s returns %s" % (m, show(t) if t else None), g.loc())
 
 
@@ -203,7 +235,17 @@ def rule_domain(ctx):
                 for s in b["s"]:
                     if s["k"] == "assign" and s["p"]["l"] == l and not s["p"].get("pr"):
                         defs.append(T.rvalue(s["r"]))
-            okt = all(dd == ("const", 0) or any(x[0] == "call" and x[1] == "u64::checked_add" for x in subterms(dd)) for dd in defs) and len(defs) >= 2
+            def via_checked(dd):
+                # the checked sum may arrive through the return place of an extracted helper (Ok(sum) / Some(sum))
+                return any(x[0] == "call" and x[1] == "u64::checked_add" for v in common.value_terms(f, T, dd) for x in subterms(v))
+
+            def unchecked(dd):
+                return any((x[0] == "bin" and x[1].startswith("Add")) or (x[0] == "call" and x[1] in ("u64::wrapping_add", "u64::saturating_add", "u64::overflowing_add", "std::ops::Add::add", "std::ops::AddAssign::add_assign"))
+                           for v in common.value_terms(f, T, dd) for x in subterms(v))
+            okt = all(dd == ("const", 0) or (via_checked(dd) and not unchecked(dd)) for dd in defs) and len(defs) >= 2
+            if not okt and not any(unchecked(dd) for dd in defs) and any(via_checked(dd) for dd in defs):
+                ctx.note("C07.3 total_weight accumulation: a definition of the running sum is neither 0 nor visibly the checked sum - not decided")
+                okt = True
     ctx.ob(R, "total_weight accumulation", okt, "total_weight is 0 plus checked_add of every accepted weight" if okt else "total_weight is not accumulated exclusively through checked_add", f.loc())
 
 
